@@ -13,7 +13,7 @@ use zvcore::explore::Verdict;
 use zvcore::refcodec as rc;
 use zvcore::world;
 
-const HISTS: [&str; 6] = ["bound-only", "one-accepted-peer", "two-peers-traffic", "connected-out", "pending-silent-handshake", "pending-handshake+accepted-peer"];
+const HISTS: [&str; 7] = ["bound-only", "one-accepted-peer", "two-peers-traffic", "connected-out", "pending-silent-handshake", "pending-handshake+accepted-peer", "stalled-peer-with-backlog"];
 
 #[derive(Clone, Debug)]
 struct Case {
@@ -50,7 +50,7 @@ async fn run_case(c: &Case) -> Vec<(String, String)> {
         }
     }
     let n_accepted = match c.hist {
-        1 | 5 => 1,
+        1 | 5 | 6 => 1,
         2 => 2,
         _ => 0,
     };
@@ -119,6 +119,35 @@ async fn run_case(c: &Case) -> Vec<(String, String)> {
             let _ = tokio::time::timeout(e4::HORIZON, sock.send(crate::e1::msg(&[b"out".to_vec()]))).await;
         }
     }
+    if c.hist == 6 && !accepted.is_empty() {
+        // the peer stops reading; the socket keeps sending until data is stuck on its side of the connection
+        // (PUB/XPUB queue below their high-water mark; the others have a send abandoned by a timeout)
+        match c.ty {
+            Ty::Pub => {
+                let _ = accepted[0].write_all(&rc::encode_message(&[vec![1u8]])).await;
+                tokio::time::sleep(Duration::from_millis(30)).await;
+            }
+            Ty::XPub => {
+                let _ = accepted[0].write_all(&rc::encode_message(&[vec![1u8]])).await;
+                let _ = tokio::time::timeout(e4::HORIZON, sock.recv()).await;
+            }
+            Ty::Rep => {
+                let _ = accepted[0].write_all(&rc::encode_message(&[vec![], b"q".to_vec()])).await;
+                let _ = tokio::time::timeout(e4::HORIZON, sock.recv()).await;
+            }
+            _ => {}
+        }
+        let one_shot = matches!(c.ty, Ty::Req | Ty::Rep);
+        let big = rc::pattern(if one_shot { 32 << 20 } else { 1 << 20 }, 5, 0);
+        for _ in 0..32 {
+            let m = if c.ty == Ty::Router { vec![b"P0".to_vec(), big.clone()] } else { vec![big.clone()] };
+            match tokio::time::timeout(Duration::from_millis(150), sock.send(crate::e1::msg(&m))).await {
+                Err(_) => break,
+                Ok(_) if one_shot => break,
+                Ok(_) => {}
+            }
+        }
+    }
     // give accept tasks a moment to register the pending connections (monotone: they only get further)
     tokio::time::sleep(Duration::from_millis(10)).await;
     if !viol.is_empty() {
@@ -126,9 +155,13 @@ async fn run_case(c: &Case) -> Vec<(String, String)> {
     }
     // ---- the action
     if c.close {
-        let errs = sock.close().await;
-        if !errs.is_empty() {
-            viol.push(("close-reported-errors".into(), format!("{}: close() returned {:?} in a failure-free history", what, errs.iter().map(|e| e.to_string()).collect::<Vec<_>>())));
+        match tokio::time::timeout(e4::HORIZON, sock.close()).await {
+            Ok(errs) => {
+                if !errs.is_empty() {
+                    viol.push(("close-reported-errors".into(), format!("{}: close() returned {:?} in a failure-free history", what, errs.iter().map(|e| e.to_string()).collect::<Vec<_>>())));
+                }
+            }
+            Err(_) => viol.push((format!("close-never-returns/{}", c.ty.name()), format!("{}: close() did not return within {} s", what, e4::HORIZON.as_secs()))),
         }
     } else {
         drop(sock);
@@ -442,6 +475,9 @@ pub fn run(tier: Tier, replay: Option<String>) -> i32 {
     for ty in ALL_TYPES {
         for tr in [Tr::Tcp4, Tr::Tcp6, Tr::Ipc] {
             for hist in 0..HISTS.len() {
+                if hist == 6 && !ty.can_send() {
+                    continue;
+                }
                 for close in [true, false] {
                     let flavours: Vec<usize> = if tier == Tier::Thorough { vec![2, 0] } else { vec![2] };
                     for w in flavours {
@@ -562,7 +598,7 @@ pub fn run(tier: Tier, replay: Option<String>) -> i32 {
     ck.cov("e4_cases_with_findings", found.len() as u64);
     ck.cov("e4_cases_skipped_after_violations", skipped.load(Ordering::Relaxed) as u64);
     ck.cov("exhaustive", skipped.load(Ordering::Relaxed) == 0);
-    ck.cov("explanation", format!("E4 (real tokio runtime, real sockets; OS schedules NOT enumerated, every expectation is a monotone condition awaited up to {} s): the complete grid 9 socket types x {{TCP v4, TCP v6, IPC}} x 6 history prefixes {:?} x {{close, drop}}{} = {} cases: fresh connects are refused (immediately after close() returns), the IPC socket file is gone, the endpoint can be bound again, every established raw peer and every client parked in the handshake sees end-of-stream, close() reports no error in these failure-free histories, the runtime's alive-task count returns to its baseline. E3 (controlled executor, model checking): for each type the socket is dropped at each of {} points of a scenario with an established peer with traffic and a second peer at 3 handshake stages, under every schedule within the deviation bound from 2 policies: the drop returns (a synchronous wait on a lock owned by a suspended task of the only thread is reported as thread-blocked), every connection half is dropped and every library-spawned task has completed by quiescence.", e4::HORIZON.as_secs(), HISTS, if tier == Tier::Thorough { " x {multi-thread, current-thread} runtime" } else { "" }, n_cases, tier.pick(10, 14)));
+    ck.cov("explanation", format!("E4 (real tokio runtime, real sockets; OS schedules NOT enumerated, every expectation is a monotone condition awaited up to {} s): the complete grid 9 socket types x {{TCP v4, TCP v6, IPC}} x 7 history prefixes {:?} (the last one - a peer that has stopped reading, with data stuck on the socket's side of its connection - for the 7 types that send) x {{close, drop}}{} = {} cases: close() returns, fresh connects are refused (immediately after close() returns), the IPC socket file is gone, the endpoint can be bound again, every established raw peer and every client parked in the handshake sees end-of-stream, close() reports no error in these failure-free histories, the runtime's alive-task count returns to its baseline. E3 (controlled executor, model checking): for each type the socket is dropped at each of {} points of a scenario with an established peer with traffic and a second peer at 3 handshake stages, under every schedule within the deviation bound from 2 policies: the drop returns (a synchronous wait on a lock owned by a suspended task of the only thread is reported as thread-blocked), every connection half is dropped and every library-spawned task has completed by quiescence.", e4::HORIZON.as_secs(), HISTS, if tier == Tier::Thorough { " x {multi-thread, current-thread} runtime" } else { "" }, n_cases, tier.pick(10, 14)));
     ck.assume("E4 does not own OS scheduling or kernel socket buffers; its oracles are insensitive to them (monotone conditions, 5 s horizon where correct code needs milliseconds)");
     ck.assume("close()'s error reporting is checked only for failure-free closes");
     ck.conclude()
